@@ -335,7 +335,11 @@ class _Iter:
     def __next__(self):
         if not self.started:
             self.started = True
-            self.start()
+            try:
+                self.start()
+            except Exception:
+                self.prog.rec["failed_at"] = "start_refused"       # the server refused what the application offered: the application fails
+                raise
         fail = self.prog.spec.get("fail")
         if getattr(self, "late", None) is not None:
             if self.late:
